@@ -480,7 +480,7 @@ func (lex *lexer) Lex(out *yySymType) int {
 					tok = LITERAL
 					n, err := strconv.ParseInt(lex.token(), 10, 64)
 					if err != nil {
-						panic(err)
+						panic(SyntaxError(err.Error()))
 					}
 					out.val = int(n)
 					(lex.p)++
@@ -495,7 +495,7 @@ func (lex *lexer) Lex(out *yySymType) int {
 					tok = LITERAL
 					n, err := strconv.ParseFloat(lex.token(), 64)
 					if err != nil {
-						panic(err)
+						panic(SyntaxError(err.Error()))
 					}
 					out.val = n
 					(lex.p)++
@@ -544,7 +544,7 @@ func (lex *lexer) Lex(out *yySymType) int {
 					tok = LITERAL
 					n, err := strconv.ParseInt(lex.token(), 10, 64)
 					if err != nil {
-						panic(err)
+						panic(SyntaxError(err.Error()))
 					}
 					out.val = int(n)
 					(lex.p)++
